@@ -73,12 +73,21 @@ pub fn guarded<T>(f: impl FnOnce() -> T) -> Result<T, PanicInfo> {
     CAPTURE.with(|c| *c.borrow_mut() -= 1);
     match r {
         Ok(v) => Ok(v),
-        Err(_) => Err(LAST_PANIC
-            .with(|p| p.borrow_mut().take())
-            .unwrap_or(PanicInfo {
+        Err(_) => {
+            let info = LAST_PANIC.with(|p| p.borrow_mut().take()).unwrap_or(PanicInfo {
                 msg: "<unknown panic>".into(),
                 loc: String::new(),
-            })),
+            });
+            // the simulator's own files are compiled with relative paths, the engine (path
+            // dependency) and its dependencies with absolute ones: a panic in the simulator is a
+            // harness error, never a finding about the engine
+            if !info.loc.is_empty() && !info.loc.starts_with('/') {
+                eprintln!("HARNESS-ERROR: panic in the simulator at {}: {}", info.loc, info.msg);
+                println!("HARNESS-ERROR: panic in the simulator at {}: {}", info.loc, info.msg);
+                std::process::exit(2);
+            }
+            Err(info)
+        }
     }
 }
 
